@@ -237,6 +237,13 @@ Theorem C05_ped_range_rules : forall K c r ms, ped_verify K c r ms = Accept -> 0
 Proof. exact ped_range_rules. Qed.
 Print Assumptions C05_ped_range_rules.
 
+(* an opening binds its randomizer unconditionally: two accepted openings of the same (c, m) have the same r *)
+Theorem C05_ped_randomizer_bound : forall K c r r' ms,
+  prime (kp K) -> prime (kq K) -> powm (kh K) (kq K) (kp K) = 1 -> kh K mod kp K <> 1 -> bits (kq K) <= TMCG_MAX_FPOWM_T ->
+  ped_verify K c r ms = Accept -> ped_verify K c r' ms = Accept -> r = r'.
+Proof. exact ped_randomizer_bound. Qed.
+Print Assumptions C05_ped_randomizer_bound.
+
 (* REFUTED on the code as it is: "messages not below q are refused" -- Verify does not range-check m_i, so m + q opens
    the same commitment while it fits the power table (known findings pedersen.m.plusq, pedersen.m.negfar) *)
 Theorem C05_pedersen_message_range_refuted : forall K c r g m, 0 < kp K -> 0 < kq K -> 0 <= m -> kg K = [g] ->
@@ -273,6 +280,14 @@ Theorem C05_skc_member_rules : forall H K le c ms P, skc_verify H K le c ms P = 
   (0 < s_cD P < kp K /\ powm (s_cD P) (kq K) (kp K) = 1).
 Proof. exact skc_member_rules. Qed.
 Print Assumptions C05_skc_member_rules.
+
+(* the response z is bound as an exact value: no second z verifies with the same commitments *)
+Theorem C05_skc_z_bound : forall H K le c ms P z',
+  prime (kp K) -> prime (kq K) -> powm (kh K) (kq K) (kp K) = 1 -> kh K mod kp K <> 1 -> bits (kq K) <= TMCG_MAX_FPOWM_T ->
+  skc_verify H K le c ms P = Accept ->
+  skc_verify H K le c ms (mk_skc (s_cd P) (s_cD P) (s_ca P) (s_f P) z' (s_fD P) (s_zD P)) = Accept -> z' = s_z P.
+Proof. exact skc_z_bound. Qed.
+Print Assumptions C05_skc_z_bound.
 
 Theorem C05_skc_z_shifted_rejected : forall H K le c ms P k, 0 < kq K -> k <> 0 -> 0 <= s_z P < kq K ->
   skc_verify H K le c ms (mk_skc (s_cd P) (s_cD P) (s_ca P) (s_f P) (s_z P + k * kq K) (s_fD P) (s_zD P)) <> Accept.
